@@ -150,7 +150,24 @@ def run(pid, tier, seed, replay, t0):
     known_sigs = {k["signature"] for k in known}
 
     def run_case(case):
-        return mod.run_case(case, drv)
+        try:
+            return mod.run_case(case, drv)
+        except Infra:
+            raise
+        except Exception as e:  # noqa
+            # an exception that escapes from the code under test at a place where the model (and the unchanged code) return
+            # normally is a broken correspondence, not a harness fault; anything else is an infrastructure error
+            tb = traceback.extract_tb(e.__traceback__)
+            src = str(core.REPO / "src")
+            frames = [f for f in tb if f.filename.startswith(src)]
+            if not frames:
+                raise
+            last = frames[-1]
+            res = core.Result(key=core.case_key(case))
+            res.features.append("implementation-raised-unexpectedly")
+            res.disagree("the implementation raised where the model returns normally",
+                         f"{type(e).__name__}: {str(e)[:120]} at {os.path.relpath(last.filename, src)}:{last.lineno} in {last.name}", "normal return")
+            return res
 
     if replay:
         body = json.loads(Path(replay).read_text())
